@@ -92,6 +92,12 @@ pub fn check_channel(sc: &ChanScen, _shape: &str) {
                 }
                 (vec![*id], vec![], vec![*id], true, false)
             }
+            (Op::Send(id) | Op::TrySend(id) | Op::SendAsync(id), Res::Sent(b)) => {
+                if b != id {
+                    oracle_fail("C01", "handback_wrong_value", &opname(&o.op), &format!("sent {} got back {}", id, b));
+                }
+                (vec![*id], vec![], vec![*id], false, false)
+            }
             (Op::SendBatch(ids), Res::BatchOk(n)) => {
                 if *n != ids.len() {
                     oracle_fail("C01", "batch_count", "send_batch", &format!("Ok({}) for a batch of {}", n, ids.len()));
@@ -120,7 +126,16 @@ pub fn check_channel(sc: &ChanScen, _shape: &str) {
             recvs.push(RecvRec { o, val });
         }
     }
-    let n_tx_drops_before = |pos: usize| ops.iter().filter(|o| o.op == Op::DropTx && o.call < pos).count();
+    // oneshot: `send(self)` consumes the handle, which is dropped inside the call (our own DropTx entry of that
+    // handle comes later and refers to an empty wrapper)
+    let oneshot = fl == crate::chan::Flavour::Oneshot;
+    let n_tx_drops_before = |pos: usize| {
+        if oneshot {
+            (0..sc.n_tx).filter(|h| ops.iter().any(|o| o.h == *h && o.call < pos && matches!(o.op, Op::DropTx | Op::Send(_) | Op::TrySend(_)))).count()
+        } else {
+            ops.iter().filter(|o| o.op == Op::DropTx && o.call < pos).count()
+        }
+    };
     let n_rx_drops_before = |pos: usize| ops.iter().filter(|o| o.op == Op::DropRx && o.call < pos).count();
 
     // ---- C01 exactly once
@@ -231,6 +246,20 @@ pub fn check_channel(sc: &ChanScen, _shape: &str) {
                 if !paired {
                     oracle_fail("C03", "rendezvous_unpaired", &opname(&s.o.op), &format!("{} returned Ok with no receive call overlapping it", opname(&s.o.op)));
                 }
+            }
+        }
+    }
+
+    // ---- C03 oneshot: only the first send ever succeeds; "already sent" needs a competing send or a receiver that is going away
+    if fl == crate::chan::Flavour::Oneshot {
+        let oks = sends.iter().filter(|s| !s.ok.is_empty()).count();
+        if oks > 1 {
+            oracle_fail("C03", "oneshot_second_send_succeeded", "send", &format!("{} sends on one oneshot channel reported Ok", oks));
+        }
+        for s in sends.iter().filter(|s| matches!(s.o.res, Res::Sent(_))) {
+            let rival = sends.iter().any(|x| !std::ptr::eq(x.o, s.o) && x.o.call < s.o.ret);
+            if !rival && n_rx_drops_before(s.o.ret) == 0 {
+                oracle_fail("C03", "oneshot_false_sent", "send", "send reported Sent although no other send had been called and the receiver was alive");
             }
         }
     }
